@@ -89,9 +89,7 @@ func (e *Entry) CloseSeqs() []int64 {
 func (e *Entry) onClose() error {
 	w := e.W
 	g := Goid()
-	if w.Gate != nil {
-		w.Gate(GatePoint{Kind: GateCloseEnter, Entry: e, Goid: g})
-	}
+	w.gate(GatePoint{Kind: GateCloseEnter, Entry: e, Goid: g})
 	seq := w.NextSeq()
 	e.mu.Lock()
 	e.Closes = append(e.Closes, CloseRec{Seq: seq, Goid: g})
@@ -137,7 +135,7 @@ type World struct {
 	CloseErr      map[int]error
 	CloseFailRegs map[int]bool // every instance of these registrations fails in Close
 	CloseLog      []*Entry     // instances in the order their Close() was called
-	Gate          func(GatePoint)
+	gateFn        atomic.Pointer[func(GatePoint)]
 	opScope       sync.Map // goid -> scope tag
 	Ctors         map[int]any
 	InstEnt       map[int]*Entry
@@ -157,6 +155,22 @@ func NewWorld(cfg *Config) (*World, error) {
 	}
 	return &World{Cfg: cfg, M: m, Count: map[int]int{}, Faults: map[[2]int]Fault{}, CloseErr: map[int]error{},
 		Ctors: map[int]any{}, InstEnt: map[int]*Entry{}}, nil
+}
+
+// SetGate installs (or, with nil, removes) the scheduling hook called at the
+// points where godi calls harness code.
+func (w *World) SetGate(f func(GatePoint)) {
+	if f == nil {
+		w.gateFn.Store(nil)
+		return
+	}
+	w.gateFn.Store(&f)
+}
+
+func (w *World) gate(gp GatePoint) {
+	if f := w.gateFn.Load(); f != nil {
+		(*f)(gp)
+	}
 }
 
 func (w *World) NextSeq() int64 { return w.seq.Add(1) }
@@ -395,9 +409,7 @@ func (w *World) invoke(r *Reg, ft reflect.Type, args []reflect.Value) []reflect.
 			inv.Args = append(inv.Args, w.decodeArg(d, args[i]))
 		}
 	}
-	if w.Gate != nil {
-		w.Gate(GatePoint{Kind: GateCtorEnter, Inv: inv, Goid: inv.Goid})
-	}
+	w.gate(GatePoint{Kind: GateCtorEnter, Inv: inv, Goid: inv.Goid})
 	w.mu.Lock()
 	f := w.Faults[[2]int{r.ID, inv.N}]
 	w.mu.Unlock()
@@ -463,9 +475,7 @@ func (w *World) invoke(r *Reg, ft reflect.Type, args []reflect.Value) []reflect.
 			}
 		}
 	}
-	if w.Gate != nil {
-		w.Gate(GatePoint{Kind: GateCtorExit, Inv: inv, Goid: inv.Goid})
-	}
+	w.gate(GatePoint{Kind: GateCtorExit, Inv: inv, Goid: inv.Goid})
 	end := w.NextSeq()
 	inv.EndSeq = end
 	for _, e := range inv.Outs {
@@ -486,9 +496,7 @@ func (w *World) invokeStatic(r *Reg, args []any) (any, error) {
 		}
 		inv.Args = append(inv.Args, w.decodeArg(d, reflect.ValueOf(args[i])))
 	}
-	if w.Gate != nil {
-		w.Gate(GatePoint{Kind: GateCtorEnter, Inv: inv, Goid: inv.Goid})
-	}
+	w.gate(GatePoint{Kind: GateCtorEnter, Inv: inv, Goid: inv.Goid})
 	w.mu.Lock()
 	f := w.Faults[[2]int{r.ID, inv.N}]
 	w.mu.Unlock()
@@ -506,9 +514,7 @@ func (w *World) invokeStatic(r *Reg, args []any) (any, error) {
 	}
 	e, obj := w.newEntry(r, 0, r.Outs[0].Impl, inv)
 	inv.Outs = append(inv.Outs, e)
-	if w.Gate != nil {
-		w.Gate(GatePoint{Kind: GateCtorExit, Inv: inv, Goid: inv.Goid})
-	}
+	w.gate(GatePoint{Kind: GateCtorExit, Inv: inv, Goid: inv.Goid})
 	end := w.NextSeq()
 	inv.EndSeq = end
 	e.BornSeq = end
